@@ -37,7 +37,7 @@ class Failure:
 
     def to_json(self):
         return dict(message=self.message, fn=self.fn,
-                    clauses=[dict(id=c, tags=t, text=x.strip()) for c, t, x in self.clauses],
+                    clauses=[dict(id=c[0], tags=c[1], text=c[2].strip()) for c in self.clauses],
                     repo_sites=[dict(file=f, line=l, text=x.strip()) for f, l, x in self.repo_sites],
                     other=self.other)
 
@@ -79,6 +79,10 @@ def run_unit(name, keep_dir=None, seed=None, rlimit=None, extra_args=()):
         res.reason = str(e)
         return res
     res.gen = gen
+    if gen.fatal:
+        res.status = "undecided"
+        res.reason = gen.fatal
+        return res
     d = keep_dir or tempfile.mkdtemp(prefix="vf-%s-" % name)
     os.makedirs(d, exist_ok=True)
     path = os.path.join(d, name.replace('-', '_') + ".rs")
@@ -135,7 +139,7 @@ def run_unit(name, keep_dir=None, seed=None, rlimit=None, extra_args=()):
         spans = list(dg.get('spans', []))
         for ch in dg.get('children', []):
             spans += ch.get('spans', [])
-        is_verif = any(k in msg for k in ('not satisfied', 'assertion failed', 'possible', 'decreases not', 'might', 'invariant', 'precondition', 'postcondition', 'recommendation', 'cannot show', 'failed'))
+        is_verif = any(k in msg for k in ('unable to prove', 'post-condition', 'not satisfied', 'assertion failed', 'possible', 'decreases not', 'might', 'invariant', 'precondition', 'postcondition', 'recommendation', 'cannot show', 'failed'))
         for sp in spans:
             fname = os.path.basename(sp.get('file_name', ''))
             l = sp.get('line_start')
@@ -158,7 +162,7 @@ def run_unit(name, keep_dir=None, seed=None, rlimit=None, extra_args=()):
             if hit is None and o['kind'] == 'ann':
                 hit = o
             if hit is not None and 'clause' in hit:
-                ent = (hit['clause'], hit.get('tags', []), hit['text'])
+                ent = (hit['clause'], hit.get('tags', []), hit['text'], bool(hit.get('marked')))
                 if ent not in fl.clauses:
                     fl.clauses.append(ent)
             elif o['kind'] == 'repo':
@@ -184,6 +188,12 @@ def run_unit(name, keep_dir=None, seed=None, rlimit=None, extra_args=()):
                     res.fn_times[fb.get('function')] = fb.get('time', 0) / 1000.0
         except Exception:
             pass
+    if 'panicked at' in err or 'internal error' in err:
+        res.status = "undecided"
+        res.reason = "verus crashed (internal error): " + err[err.find('panicked at'):][:400]
+        if not keep_dir:
+            shutil.rmtree(d, ignore_errors=True)
+        return res
     if summary is None or 'verification-results' not in (summary or {}):
         # the front end rejected the file: every error diagnostic is a tool / construct problem
         for fl in res.failures:
@@ -229,7 +239,7 @@ if __name__ == "__main__":
     for f in r.failures:
         print("-", f.message, "| fn", f.fn)
         for c in f.clauses:
-            print("     clause", c[0], c[1], "::", c[2].strip()[:110])
+            print("     clause", c[0], c[1], "own" if c[3] else "inherited", "::", c[2].strip()[:110])
         for s in f.repo_sites:
             print("     repo  %s:%d :: %s" % (s[0], s[1], s[2].strip()[:110]))
         for o in f.other[:3]:
